@@ -11,6 +11,9 @@ import (
 	"strings"
 	"time"
 
+	"github.com/hashicorp/go-hclog"
+	"github.com/hashicorp/raft"
+	wal "github.com/hashicorp/raft-wal"
 	"github.com/hashicorp/raft-wal/segment"
 	"github.com/hashicorp/raft-wal/types"
 )
@@ -673,10 +676,98 @@ func genSizes(c *ctx, emit func(string)) {
 			emit(fmt.Sprintf("#big %x", sz))
 			emit(fmt.Sprintf("#bigmid %x", sz))
 		}
+		// WAL level: payloads whose ENCODING crosses the limit, and a batch above 64 MiB
+		// that must survive a reopen of the unsealed tail
+		for _, k := range []string{"data-8", "data", "ext", "batch"} {
+			emit("#walbig " + k)
+		}
 	}
 }
 
+// execWalBig: through wal.StoreLogs / GetLog / Close / Open on an in-memory directory:
+// whatever is acknowledged must be readable, before and after a reopen.
+func execWalBig(c *ctx, line string) (obs string) {
+	defer func() {
+		if e := recover(); e != nil {
+			obs = "panic"
+			c.witness("C15", "big-panic", fmt.Sprintf("panic on a large entry: %v", e), line)
+		}
+		runtime.GC()
+	}()
+	kind := strings.Split(line, " ")[1]
+	cfs := newCrashFS()
+	open := func() (*wal.WAL, error) {
+		return wal.Open("d", wal.WithSegmentFiler(segment.NewFiler("d", cfs)), wal.WithMetaStore(&cmeta{fs: cfs}),
+			wal.WithSegmentSize(128<<20), wal.WithLogger(hclog.NewNullLogger()))
+	}
+	w, err := open()
+	if err != nil {
+		return "badinput"
+	}
+	mk := func(idx uint64, nd, ne int) *raft.Log {
+		d := make([]byte, nd)
+		for i := 0; i < nd; i += 4099 {
+			d[i] = byte(i + int(idx))
+		}
+		var e []byte
+		if ne > 0 {
+			e = make([]byte, ne)
+			e[ne-1] = 9
+		}
+		return &raft.Log{Index: idx, Term: 1, Data: d, Extensions: e}
+	}
+	var logs []*raft.Log
+	switch kind {
+	case "data-8":
+		logs = []*raft.Log{mk(1, segMaxEntry-8, 0)}
+	case "data":
+		logs = []*raft.Log{mk(1, segMaxEntry, 0)}
+	case "ext":
+		logs = []*raft.Log{mk(1, 48<<20, 17<<20)}
+	default:
+		logs = []*raft.Log{mk(1, 22<<20, 0), mk(2, 22<<20, 0), mk(3, 22<<20, 0)}
+	}
+	c.stat("walbig_cases")
+	err = w.StoreLogs(logs)
+	if err != nil {
+		w.Close()
+		if kind == "batch" {
+			c.witness("C15", "max-refused", fmt.Sprintf("batch of three 22 MiB entries refused: %v", err), line)
+			return "fail"
+		}
+		return "refused"
+	}
+	check := func(w *wal.WAL, when string) bool {
+		for _, l := range logs {
+			var got raft.Log
+			if gerr := w.GetLog(l.Index, &got); gerr != nil || !bytes.Equal(got.Data, l.Data) || !bytes.Equal(got.Extensions, l.Extensions) {
+				c.witness("C15", "acked-unreadable", fmt.Sprintf("entry %d (%d+%d bytes) acknowledged but unreadable %s: %v", l.Index, len(l.Data), len(l.Extensions), when, gerr), line)
+				return false
+			}
+		}
+		return true
+	}
+	if !check(w, "in the running process") {
+		w.Close()
+		return "fail"
+	}
+	w.Close()
+	w2, err := open()
+	if err != nil {
+		c.witness("C15", "acked-unreadable", fmt.Sprintf("Open fails after acknowledging a %s case: %v", kind, err), line)
+		return "fail"
+	}
+	defer w2.Close()
+	if !check(w2, "after reopen") {
+		return "fail"
+	}
+	return "ok"
+}
+
 func execSizes(c *ctx, line string) string {
+	if strings.HasPrefix(line, "#walbig") {
+		return execWalBig(c, line)
+	}
 	if strings.HasPrefix(line, "#big") {
 		return execBig(c, line)
 	}
